@@ -58,6 +58,10 @@ S2N_CORPUS = [
     "0.1", "123456789012345678901234567890", "  \n", "1\u00001",
 ]
 
+# long radix literals / exponents: values beyond 64 bits must be rounded doubles, not overflow
+S2N_CORPUS += ["0x10000000000000000", "0xFFFFFFFFFFFFFFFFFFFF", "0b" + "1" * 66, "0o7777777777777777777777", "0x" + "f" * 40]
+TOTALITY_EXTRA = ["9" * 40, "-" + "9" * 40, "1e-99999", "1e99999", "0." + "0" * 40 + "1", "0x" + "0" * 30 + "1", "\u0009\u000b\u000c\u00a0\ufeff"]
+
 PF_CORPUS = [
     "", " ", "1", "12px", "1e", "1e+", "1e+5x", "1-2", "1+1", ".5.", ".5", "5.", "  7", "7  ", "-", "+", "-.", "abc", "-5x",
     "+5", "1.1.1", "1234abc", "1E2", "1e-2", "Infinity", "-Infinityx", "inf", "nan", "0x10", "e5", ".e5", "1_0", "1,2",
